@@ -357,21 +357,44 @@ def single_edit_sequence(w, rng, st):
     names = [rng.choice(['labels', 'capacities', 'user_data'])]
     if rng.random() < 0.4:
         names = rng.sample(['labels', 'capacities', 'user_data'], rng.choice([2, 3]))
-    steps = [{'op': 'checkpoint', 'replace': 0} if len(w.checkpoints) >= 2 else {'op': 'checkpoint'}]
+    ckpt_step = {'op': 'checkpoint', 'replace': 0} if len(w.checkpoints) >= 2 else {'op': 'checkpoint'}
+    steps = [ckpt_step]
     if final.get('what') == 'interface' and rng.random() < 0.6:
-        # two sub-interfaces of the port edited differently (each must be reported with its own flags only)
+        # two sub-interfaces of the port edited differently (each must be reported with its own flags only); a port
+        # with fewer than two gets them first
         kids = st.child_cps(final['cp'])
         pref = iface_ref_(st, final['cp'])
-        if len(kids) >= 2 and pref:
-            k1, k2 = rng.sample(sorted(kids), 2)
+        if pref and st.typ(final['cp']) == 'DedicatedPort':
+            names = [st.name(k) for k in sorted(kids)]
+            pre = []
+            while len(names) < 2:
+                nm = '%s-e%d' % (st.name(final['cp']), len(names))
+                pre.append({'op': 'add_child_interface', 'iface': pref, 'name': nm, 'vlan': str(120 + len(names)), 'id': None})
+                names.append(nm)
+            k1, k2 = rng.sample(names, 2)
+            steps = pre + [ckpt_step]
             for k, nm in ((k1, 'labels'), (k2, 'capacities')):
                 v = gen_value(rng, nm, 'interface')
                 if v is None:
                     return None
-                steps.append({'op': 'edit_tracked', 'kind': 'interface', 'ref': dict(pref, sub=st.name(k)), 'name': nm,
-                              'val': v})
+                steps.append({'op': 'edit_tracked', 'kind': 'interface', 'ref': dict(pref, sub=k), 'name': nm, 'val': v})
             steps.append(dict(final, ckpt=min(len(w.checkpoints), 1)))
             w.stats.inc('probe.diff.two_subinterfaces_edited')
+            return steps
+    if final.get('what') == 'node' and kind == 'component' and rng.random() < 0.35 and w.cfg['flavour'] == 'experiment':
+        # the component is removed and created again under its name (new id) with other capacities: present in both
+        # versions by name, so its changes are reported, not swallowed
+        model = st.n[[c for c in st.components_of([n_ for n_ in st.of_class('NetworkNode') if st.name(n_) == node][0])
+                      if st.name(c) == ref['comp']][0]]
+        cat = {'GPU': 'GPU_RTX6000', 'SmartNIC': 'SmartNIC_ConnectX_6', 'SharedNIC': 'SharedNIC_ConnectX_6',
+               'NVME': 'NVME_P4510', 'FPGA': 'FPGA_Xilinx_U280'}.get(model.get('Type'))
+        if cat:
+            steps.append({'op': 'remove_component', 'node': node, 'name': ref['comp']})
+            steps.append({'op': 'add_component', 'node': node, 'name': ref['comp'], 'model': cat, 'id': None,
+                          'kw': {'capacities': {'_t': 'Capacities', 'a': {'unit': rng.randint(2, 9)}},
+                                 'user_data': {'_t': 'UserData', 'a': {'recreated': rng.randint(1, 9)}}}})
+            steps.append(dict(final, ckpt=min(len(w.checkpoints), 1)))
+            w.stats.inc('probe.diff.recreated_under_same_name')
             return steps
     for nm in names:
         v = gen_value(rng, nm, kind)
